@@ -9,7 +9,10 @@ import networkx  # noqa  (warm-up: lazily compiled code must be imported before 
 from experiment.model.frontends.flowir import FlowIR, Manifest
 import experiment.model.graph as graph
 
-ALLOWED_EXCEPTIONS = ()
+import experiment.model.errors as _errors
+
+# a manifest that is rejected by validation (absolute key, key escaping the instance) never reaches classification
+ALLOWED_EXCEPTIONS = (_errors.FlowIRManifestException,)
 METHODS = list(FlowIR.data_reference_methods)
 SPECIAL = list(FlowIR.SpecialFolders)
 
@@ -143,6 +146,7 @@ _c09_expand_idempotent_pre = _c09_print_then_parse_name_pre
 def _c09_manifest_top_level(k: str) -> bool:
     """
     pre: 1 <= len(k) <= 3 and 33 <= ord(k[0]) <= 126 and 33 <= ord(k[-1]) <= 126 and (len(k) < 3 or 33 <= ord(k[1]) <= 126) and k[0] != '/' and ':' not in k
+    raises: _errors.FlowIRManifestException
     post: _
     """
     m = Manifest({k: 'src:copy'})
@@ -156,6 +160,7 @@ def _c09_manifest_top_level_pre(k):
 def _c09_manifest_folder_is_not_component(k: str) -> bool:
     """
     pre: 1 <= len(k) <= 3 and 33 <= ord(k[0]) <= 126 and 33 <= ord(k[-1]) <= 126 and (len(k) < 3 or 33 <= ord(k[1]) <= 126) and k[0] != '/' and ':' not in k and '%' not in k and '.' not in k
+    raises: _errors.FlowIRManifestException
     post: _
     """
     top = Manifest({k: 'src:copy'}).top_level_folders
